@@ -184,6 +184,14 @@ func (eval Evaluator) evaluateNew(ct *rlwe.Ciphertext, log2min, log2max float64,
 
 	if fulldomain {
 
+		// Checks that cInv has at least one level remaining above the minimum level
+		// (without normalization factor nothing ensured it after the division)
+		if cInv.Level() < btp.MinimumInputLevel()+levelsPerRescaling {
+			if cInv, err = btp.Bootstrap(cInv); err != nil {
+				return nil, fmt.Errorf("fulldomain: bootstrap(cInv): %w", err)
+			}
+		}
+
 		// Multiplies back with the encrypted sign
 		if err = eval.MulRelin(cInv, sign, cInv); err != nil {
 			return nil, fmt.Errorf("fulldomain: mul(cInv):  %w", err)
